@@ -402,7 +402,7 @@ func (w *World) holdFor(task, point string, arg any) *Hold {
 	defer w.mu.Unlock()
 	for i := range w.taskHolds {
 		th := &w.taskHolds[i]
-		if th.Hold.At == point && strings.HasPrefix(task, th.Task) {
+		if holdAt(&th.Hold, point) && strings.HasPrefix(task, th.Task) {
 			h := th.Hold
 			if h.Max <= 0 {
 				h.Max = 2 * time.Second
@@ -416,7 +416,7 @@ func (w *World) holdFor(task, point string, arg any) *Hold {
 		return nil
 	}
 	rid := req.Header.Get("X-Request-Id")
-	if h := w.reqHolds[rid]; h != nil && h.At == point {
+	if h := w.reqHolds[rid]; h != nil && holdAt(h, point) {
 		delete(w.reqHolds, rid)
 		return h
 	}
